@@ -28,7 +28,13 @@ CLAIMS = {
   "design_ref": "DESIGN.md section 4, C07 (R07.1-R07.6)",
   "technique": "static analysis: who-binds query for the intern tables, CFG dominance/reachability for the find-or-add protocol, shape analysis of the key comprehension, abstract interpretation of metaclass __call__ return values",
   "text": "Decides the hash-consing protocol for the five intern tables (terms, three type caches, op instances): every binding is a fresh weakref.WeakValueDictionary(); lookup, miss test and insert use one definition of the key with no re-definition in between; the insert dominates every return of a newly built object and the returned object is the inserted one; make_hash_key covers all arguments (no filter/slice; id() only under a hashability test) and reflect keys, constructs and records _ast_values from the same args; ops are hashed after apply_defaults from the (args, kwargs) they are built from; _ast_values precedes the insert (ids stay alive); the alpha-mangled object is what is cached; type.__call__ on terms occurs only in reflect and all 12 metaclass __call__ overrides return super().__call__ results; __hash__/__copy__/__reduce__ of terms, ops and the copyreg hooks of domains go through the interning constructors and are not overridden. NOT decided: GC timing, third-party array pickling.",
-  "note": "Interning functions are anchored by qualified name (a vanished anchor is exit 2). Trusts WeakValueDictionary semantics.",
+  "note": "Interning functions are anchored by qualified name (a vanished anchor is exit 2). Trusts WeakValueDictionary semantics. The unique-decodability clause of hash_args_kwargs and R07.8 (no strong memo on term instances) were added after the seeded changes C07-getslice-key-flattened / C07-lru-cache-holds-terms were examined.",
+ },
+ "C16": {
+  "design_ref": "DESIGN.md section 4, C16 (R16.1-R16.7)",
+  "technique": "static analysis: def-use/dataflow shape of the dispatch functions, effect analysis over the resolved call graph of the subtype oracle, enumeration and tuple-union expansion of all registrations per dispatcher, arity comparison against the term-class catalogue, CFG path check of element validation",
+  "text": "Decides the determinism clauses: the rule returned by partial_call flows only from the cache entry of / dispatch on the deep_type tuple of all arguments; KeyedRegistry selects dispatchers by get_origin(key) and forwards all arguments; state written on the dispatch path is invalidated by registration; the 17 functions of the deep_issubclass/deep_type call graph write no module, class or argument state (so lru_cache and dispatch caches cannot change an answer) and the subclass-check registry is written only by its decorator; in each of ~170 dispatchers (per backend configuration) no expanded signature is registered twice with different rule bodies; each of ~150 interpretation/adjoint patterns has the arity of its term class constructor (or reflect's var-args packing) and of the rule's parameters, so it can fire; reflect specialises the class on deep_type of all arguments; a precise element type reported for a frozenset is validated or widened for every element. NOT decided: reflexivity/transitivity/instance agreement of the recursive subtype relation, and most-specific selection inside multipledispatch (external).",
+  "note": "Patterns computed at run time (make_funsor/make_op factories, backend distribution classes) are noted, not checked. Trusts multipledispatch's ordering and that Dispatcher.add clears its cache. R16.6/R16.7 were added after the seeded changes C16-keyed-registry-stale-lookup / C16-frozenset-deep-type-first-element were examined.",
  },
 }
 
@@ -47,6 +53,5 @@ NOT_APPLICABLE = {
  "C06": "check not implemented yet in this snapshot (planned: R06.1-R06.4)",
  "C08": "check not implemented yet in this snapshot (planned: R08.1-R08.4)",
  "C11": "check not implemented yet in this snapshot (planned: R11.1-R11.5)",
- "C16": "check not implemented yet in this snapshot (planned: R16.1-R16.5)",
  "C18": "check not implemented yet in this snapshot (planned: R18.1-R18.6)",
 }
